@@ -509,6 +509,11 @@ def check_c15(tier, seed):
             nsess = 1 if (tier == 'quick' and not name.startswith(('after_drain', 'midstream_3'))) else rng.choice([1, 2, 3])
             c = mk(ck, {'logical_processors': rng.choice([1, 2, 4]), 'enc_mode': 8, 'hierarchical_levels': rng.choice([3, 4])}, {'kind': 'mix', 'seed': rng.randint(1, 99)}, 20, (64, 64), sim=gen.schedule(rng, allow_buggify=(rep > 0)), oracles={'decode': 0, 'parse': 0, 'order': 0})
             c['program'] = [copy.deepcopy(o) for _ in range(nsess) for o in prog]; c['_gen'] = None; c['_point'] = name; cases.append(c)
+    # teardown bookkeeping depends on the geometry-dependent object counts (segment rows, tiles, pools): other picture shapes and core counts
+    full = gen.program(5, 'each', recon=True)
+    for (wh, lp, extra) in [((64, 256), 4, {}), ((128, 128), 2, {'tile_rows': 1}), ((64, 192), 8, {}), ((192, 64), 3, {'tile_columns': 1})] + ([] if tier == 'quick' else [((rng.choice([64, 128, 192]), rng.choice([64, 128, 256])), rng.choice([2, 4, 8]), {}) for _ in range(12)]):
+        c = mk(ck, dict({'logical_processors': lp, 'enc_mode': 8}, **extra), {'kind': 'mix', 'seed': rng.randint(1, 99)}, 5, wh, sim=gen.schedule(rng, allow_buggify=False), machine={'cores': lp, 'sockets': 1}, oracles={'decode': 0, 'parse': 0, 'order': 0})
+        c['program'] = [copy.deepcopy(o) for _ in range(2) for o in full]; c['_gen'] = None; c['_point'] = 'after_drain'; cases.append(c)
     st = make_streams(['base8', 'tiles2x2'], ck)
     for nm, s in st.items():
         for th in ([1, 4] if tier == 'quick' else [1, 2, 4, 8]):
@@ -531,7 +536,8 @@ def check_c15(tier, seed):
     rc = ck.finish(); cleanup_streams(); return rc
 
 # ---- C16 ----------------------------------------------------------------------------------------------------
-SETUP_PROG = [{'op': 'init_handle'}, {'op': 'set_param'}, {'op': 'init'}, {'op': 'deinit'}, {'op': 'deinit_handle'}, {'op': 'session_end'}]
+# after a failed set_parameter the application retries it once (a transient allocation failure): the failed call must have left the handle usable
+SETUP_PROG = [{'op': 'init_handle'}, {'op': 'set_param'}, {'op': 'set_param', 'retry_only': 1}, {'op': 'init'}, {'op': 'deinit'}, {'op': 'deinit_handle'}, {'op': 'session_end'}]
 
 def c16_oracle(case, res, variant):
     """the API call during which the fault fired returns an error; teardown completes; ledger empty"""
@@ -596,13 +602,14 @@ def check_c16(tier, seed):
         K = k_in; total_k += K; nthreads = r['sim']['thread_create_counter']
         ck.ev.extra.setdefault('census', []).append({'cfg': cfgo, 'allocations': {'init_handle': k_ih, 'set_parameter': k_sp - k_ih, 'init': k_in - k_sp}, 'distinct_sites': len(r.get('sites', [])), 'threads': nthreads})
         def phase(k): return 'init_handle' if k <= k_ih else ('set_param' if k <= k_sp else 'init')
-        ks = set(range(1, 61))
-        per_site = 3 if tier == 'quick' else 32
+        ks = set(range(1, 31 if tier == 'quick' else 61))
+        per_site = 2 if tier == 'quick' else 32
         for s in r.get('sites', []):
             site, cnt, first, last = s
-            ks.add(first); ks.add(last)
+            ks.add(first)
+            if tier != 'quick' or rng.random() < 0.25: ks.add(last)   # quick: every site's first occurrence, a seeded quarter of the last ones
             if cnt > 2:
-                for _ in range(min(per_site - 2, cnt - 2)): ks.add(rng.randint(first, last))
+                for _ in range(max(0, min(per_site - 2, cnt - 2))): ks.add(rng.randint(first, last))
         ks = sorted(k for k in ks if 1 <= k <= K)
         if tier != 'quick':
             rest = [k for k in range(1, K + 1) if k not in set(ks)]; rng.shuffle(rest)
